@@ -135,7 +135,9 @@ func (b *brokerPart) OnSent(w *World, st *StepRec, sr sentRec, exp Exp) *Violati
 			ns := &mSub{id: got.Subscription, realm: realm, topic: string(m.Topic), class: class, members: map[int]bool{sr.S: true}, created: st.N}
 			b.subs[key] = ns
 			b.byID[idk] = ns
-			if b.onCreate != nil {
+			if b.onCreate != nil && !b.persistent[key] {
+				// (the subscription of a configured event history exists from the start:
+				// its first subscriber joins it, nothing is created)
 				b.onCreate(st, sr.S, ns)
 			}
 			if b.onSubscribe != nil {
